@@ -122,6 +122,7 @@ class Interp:
         self.calls = []  # (qualname, args, kwargs, site, result)
         self.ext_calls = _Logged(self)  # (name, args, kwargs, site, result)
         self.timeline = []  # chronological ("call"|"ext", name, record)
+        self.stores = []  # (written tensor object, stored value, site) of every subscript store into a tensor
         self.call_ast = {}  # resolved callee name -> ast.Call nodes that invoked it (identity of the program model's nodes)
         self.stack = []
         self.frames = []
@@ -1369,6 +1370,7 @@ class Interp:
         idx = self.eval_index(target.slice)
         if isinstance(base, VTens):
             view = self.ops.subscript(self, base, idx, node, for_store=True)
+            self.stores.append((base.obj, v, self.site(node)))
             nt = None
             if isinstance(v, VTens):
                 nt = v.term
